@@ -46,6 +46,7 @@ type SkelSpec struct {
 	Func  string   `json:"func"`
 	Name  string   `json:"name"`  // Lean name
 	Calls []string `json:"calls"` // selector suffixes that count as effectful (e.g. "storage.Get", "mu.Lock")
+	Lits  bool     `json:"lits"`  // also emit <Name>_lits: every integer literal of the body, in source order
 }
 
 // RouteSpec: a tag-less `switch { case cond: return recv.handler(...) … default: … }` inside Func becomes
@@ -645,6 +646,21 @@ func genSkel(root string, ss *SkelSpec, out *strings.Builder) {
 		qs[i] = leanStr(c)
 	}
 	fmt.Fprintf(out, "def %s : List String := [%s]\n", ss.Name, strings.Join(qs, ", "))
+	if ss.Lits {
+		// buffer sizes, offsets and length bounds written as literals (not named constants) in parsers
+		var lits []string
+		ast.Inspect(fd.Body, func(n ast.Node) bool {
+			if bl, ok := n.(*ast.BasicLit); ok && bl.Kind == token.INT {
+				v, err := strconv.ParseInt(bl.Value, 0, 64)
+				if err != nil || v < 0 {
+					die("skel %s: bad integer literal %s", ss.Name, bl.Value)
+				}
+				lits = append(lits, strconv.FormatInt(v, 10))
+			}
+			return true
+		})
+		fmt.Fprintf(out, "def %s_lits : List Nat := [%s]\n", ss.Name, strings.Join(lits, ", "))
+	}
 }
 
 func (rs *RouteSpec) cond(e ast.Expr) string {
